@@ -4,6 +4,8 @@
 #pragma once
 #include <cappuccino/cappuccino.hpp>
 
+#include "vclock.hpp"
+
 #include <atomic>
 #include <chrono>
 #include <cstdio>
@@ -185,6 +187,7 @@ struct Cfg
     int    rsh{1};
     int    flavour{0}; // 0: int/int   1: std::string/HVal
     int    keys{8};
+    long long us{250}; // microseconds per clock tick
 };
 
 struct KV
@@ -270,15 +273,15 @@ class Adapter final : public ICache
         if constexpr (KD == Kind::lfuda)
         {
             float ratio = static_cast<float>(g.rnum) / static_cast<float>(1 << g.rsh);
-            return std::make_unique<C>(g.cap, ms{g.tick}, ratio, g.mlf);
+            return std::make_unique<C>(g.cap, ttl_ms(g.tick), ratio, g.mlf);
         }
         else if constexpr (KD == Kind::utlru)
         {
-            return std::make_unique<C>(ms{g.ttl}, g.cap, g.mlf);
+            return std::make_unique<C>(ttl_ms(g.ttl), g.cap, g.mlf);
         }
         else if constexpr (KD == Kind::utmap || KD == Kind::utset)
         {
-            return std::make_unique<C>(ms{g.ttl});
+            return std::make_unique<C>(ttl_ms(g.ttl));
         }
         else
         {
@@ -317,7 +320,7 @@ public:
         }
         else if constexpr (caps::entry_ttl)
         {
-            return c->insert(ms{d}, KC::to(k), VC::to(v), al(a));
+            return c->insert(ttl_ms(d), KC::to(k), VC::to(v), al(a));
         }
         else
         {
@@ -359,12 +362,12 @@ public:
             {
                 std::list<T> s;
                 for (auto& e : eff)
-                    s.emplace_back(ms{e.d}, KC::to(e.k), VC::to(e.v));
+                    s.emplace_back(ttl_ms(e.d), KC::to(e.k), VC::to(e.v));
                 return c->insert_range(s, al(a));
             }
             std::vector<T> s;
             for (auto& e : eff)
-                s.emplace_back(ms{e.d}, KC::to(e.k), VC::to(e.v));
+                s.emplace_back(ttl_ms(e.d), KC::to(e.k), VC::to(e.v));
             return c->insert_range(s, al(a));
         }
         else
@@ -623,7 +626,7 @@ public:
         (void)d;
         if constexpr (caps::has_uttl)
         {
-            c->update_ttl(ms{d});
+            c->update_ttl(ttl_ms(d));
         }
     }
     void clear() override
